@@ -25,12 +25,13 @@ PROGRAMS = {
     "plain": "foo(a).\nfoo(b).\nbar(X) :- foo(X), \\+ baz(X).\nbaz(Y) :- ( Y = a -> true ; fail ).\n",
     "nl": "msg('line one\nline two').\nshow(X) :- msg(X).\n'two\nlines'(x) :- true.\n".replace("'two\nlines'(x) :- true.\n", "wrap(f('a\nb\nc'),Y) :- msg(Y).\n"),
     "uni": "grüße('Grüße, 世界').\nsay(X) :- grüße(X).\n".replace("grüße(", "gruss("),
+    "nltrail": "msg('trail\n').\nshow(X) :- msg(X), other('a\n', 'b\r').\n",
     "cr": "msg('one\rimport os\rtwo').\nshow(X) :- msg(X).\n",
     "bad": "foo(a) :- ,.\n",
     "bad2": "ok(a).\nnot closed(\n",
     "noncallable": "cat(tom) :- 1.\n",
 }
-ABSTRACT = {"plain": ["plain", "uni"], "nl": ["nl", "cr"], "bad": ["bad", "bad2", "noncallable"]}
+ABSTRACT = {"plain": ["plain", "uni"], "nl": ["nl", "cr", "nltrail"], "bad": ["bad", "bad2", "noncallable"]}
 
 
 def lines_of(data):
@@ -102,8 +103,9 @@ def run(tier, seed):
             variants = [[]]
             for a in c["srcs"]:
                 variants = [v + [x] for v in variants for x in ABSTRACT[a]]
-            if tier == "quick":
-                variants = variants[:: max(1, len(variants) // 2)][:2]
+            if tier == "quick" and len(variants) > 2:
+                # two concrete choices per configuration, rotating so that every program is used
+                variants = [variants[(k + 0) % len(variants)], variants[(k * 2 + 1) % len(variants)]]
             for srcnames in variants:
                 outs = (False, True) if (tier == "thorough" or (k % 3 == 0)) else (False,)
                 for use_o in outs:
